@@ -329,6 +329,26 @@ func (c17World) Run(prop string, ch *zsim.Choices, trace bool) *RunResult {
 			for i := 0; i < whole; i++ {
 				want = append(want, lines[i]...)
 			}
+			if whole >= 1 && (!partial || k%3 == 0) {
+				// the convenience entry points have no error result: what they return for a cut
+				// stream still starts with (or, at a boundary, is) the decoded whole events
+				for ep := 0; ep < 2; ep++ {
+					ep := ep
+					re := guarded(len(prefix), false, func() ([]byte, error) {
+						if ep == 0 {
+							return cbor.DecodeIfBinaryToBytes(prefix), nil
+						}
+						return []byte(cbor.DecodeIfBinaryToString(prefix)), nil
+					})
+					name := []string{"DecodeIfBinaryToBytes", "DecodeIfBinaryToString"}[ep]
+					if v := totalityViolation(re, prefix, name+" of the stream cut at offset "+fmt.Sprint(k)); v != nil {
+						zsim.Fail(v.Clause, "%s", v.Msg)
+					}
+					if (partial && !bytes.HasPrefix(re.out, want)) || (!partial && !bytes.Equal(re.out, want)) {
+						zsim.Fail("C17.prefix", "%s of the stream cut at offset %d (%d whole events, partial one: %v): the result does not start with the decoded whole events (first difference at byte %d)\n got  %s\n want %s", name, k, whole, partial, firstDiff(re.out, want), clip(re.out, 300), clip(want, 300))
+					}
+				}
+			}
 			if partial {
 				// whatever was emitted for the partial event after the complete ones is ignored,
 				// but the complete events must be there, unchanged, and an error must be reported
@@ -344,6 +364,29 @@ func (c17World) Run(prop string, ch *zsim.Choices, trace bool) *RunResult {
 				}
 				if r.err != nil {
 					zsim.Fail("C17.prefix", "stream cut exactly after event %d (offset %d): decoder reported %v", whole, k, r.err)
+				}
+			}
+		}
+
+		// (a') single events whose value bytes were replaced by extremes of their type: the decoder
+		// stays total on every bit pattern a tagged or untagged number can hold
+		if ch.Chance(1, 2) {
+			for m := 0; m < 6; m++ {
+				buf, desc := specialEvent(ch)
+				zsim.Fault("special_value")
+				for ep := 0; ep < 2; ep++ {
+					ep := ep
+					r := guarded(len(buf), true, func() ([]byte, error) {
+						if ep == 1 {
+							return cbor.DecodeIfBinaryToBytes(buf), nil
+						}
+						var out bytes.Buffer
+						err := cbor.Cbor2JsonManyObjects(&c17Reader{b: buf, chunk: 0, failAt: -1}, &out)
+						return out.Bytes(), err
+					})
+					if v := totalityViolation(r, buf, desc+fmt.Sprintf(" via entry point %d", ep)); v != nil {
+						zsim.Fail(v.Clause, "%s", v.Msg)
+					}
 				}
 			}
 		}
@@ -437,6 +480,41 @@ func totalityViolation(r decodeResult, input []byte, what string) *zsim.Violatio
 		return viol("C17.allocation", "%s: decoding %d bytes allocated %d bytes (limit 256 x input + 1 MiB, plus 2 KiB for each of the %d channel operations the simulator emulated); input %s", what, len(input), r.alloc, r.simOps, hexClip(input, 120))
 	}
 	return nil
+}
+
+// specialEvent builds {"k": <value>} in CBOR where the value is a number (plain or
+// under the timestamp / duration-like tags) holding an extreme of its encoding.
+func specialEvent(ch *zsim.Choices) ([]byte, string) {
+	var v []byte
+	switch ch.Intn(4) {
+	case 0: // 64-bit float
+		bits := []uint64{0x7ff0000000000000, 0xfff0000000000000, 0x7ff8000000000001, 0xffefffffffffffff, 0x7fefffffffffffff,
+			0xc3e0000000000000, 0xc3e0000000000001, 0x43e0000000000000, 0x43f0000000000000, 0xc3f0000000000000, 0x0000000000000001, 0x8000000000000000}[ch.Intn(12)]
+		v = []byte{0xfb, byte(bits >> 56), byte(bits >> 48), byte(bits >> 40), byte(bits >> 32), byte(bits >> 24), byte(bits >> 16), byte(bits >> 8), byte(bits)}
+	case 1: // 32-bit float
+		bits := []uint32{0x7f800000, 0xff800000, 0x7fc00001, 0xff7fffff, 0x7f7fffff, 0xdf000000, 0x5f000000, 0x00000001, 0x80000000}[ch.Intn(9)]
+		v = []byte{0xfa, byte(bits >> 24), byte(bits >> 16), byte(bits >> 8), byte(bits)}
+	case 2: // 16-bit float
+		bits := []uint16{0x7c00, 0xfc00, 0x7e01, 0xfbff, 0x7bff, 0x0001, 0x8000}[ch.Intn(7)]
+		v = []byte{0xf9, byte(bits >> 8), byte(bits)}
+	case 3: // integers at the ends of their range
+		v = [][]byte{
+			{0x1b, 0xff, 0xff, 0xff, 0xff, 0xff, 0xff, 0xff, 0xff},
+			{0x3b, 0xff, 0xff, 0xff, 0xff, 0xff, 0xff, 0xff, 0xff},
+			{0x1b, 0x7f, 0xff, 0xff, 0xff, 0xff, 0xff, 0xff, 0xff},
+			{0x3b, 0x7f, 0xff, 0xff, 0xff, 0xff, 0xff, 0xff, 0xff},
+			{0x1b, 0x80, 0x00, 0x00, 0x00, 0x00, 0x00, 0x00, 0x00},
+			{0x3b, 0x80, 0x00, 0x00, 0x00, 0x00, 0x00, 0x00, 0x00},
+			{0x1a, 0xff, 0xff, 0xff, 0xff},
+			{0x3a, 0xff, 0xff, 0xff, 0xff},
+		}[ch.Intn(8)]
+	}
+	tag := [][]byte{nil, {0xc1}, {0xc1}, {0xc0}, {0xd9, 0x01, 0x04}, {0xd9, 0x01, 0x05}, {0xd9, 0x01, 0x06}, {0xd8, 0x20}}[ch.Intn(8)]
+	buf := []byte{0xbf, 0x61, 'k'}
+	buf = append(buf, tag...)
+	buf = append(buf, v...)
+	buf = append(buf, 0xff)
+	return buf, fmt.Sprintf("event {\"k\": tag %x value %x}", tag, v)
 }
 
 // mutate damages stored bytes in place and says what it did.
